@@ -189,4 +189,38 @@ errno_of(const char *s)
 	return atoi(s) ?: EIO;
 }
 
+/* What an uninitialised variable of the SUT holds is whatever the serving
+ * parent left on the stack, i.e. it depends on which runs this process saw
+ * before: one more source of nondeterminism the simulator has to own.  The
+ * stack below the SUT's entry point is filled with one pattern (positive as
+ * an int) before every run. */
+static void __attribute__((noinline, unused))
+scrub_stack(void)
+{
+	volatile char buf[1U << 18U];
+
+	for (size_t i = 0U; i < sizeof(buf); i++) {
+		buf[i] = 0x5a;
+	}
+	__asm__ volatile("" ::: "memory");
+}
+
+/* Address space layout randomisation is one more source of run-to-run
+ * differences (what a stale or uninitialised word holds, allocation
+ * addresses that find their way into hashes or comparisons): switch it off
+ * for the simulator process and everything it forks. */
+#include <sys/personality.h>
+static void __attribute__((unused))
+no_aslr(char **argv)
+{
+	const int p = personality(0xffffffffUL);
+
+	if (p >= 0 && !(p & ADDR_NO_RANDOMIZE) && getenv("SIM_NOASLR_TRIED") == NULL) {
+		setenv("SIM_NOASLR_TRIED", "1", 1);
+		if (personality((unsigned long)p | ADDR_NO_RANDOMIZE) >= 0) {
+			execv("/proc/self/exe", argv);
+		}
+	}
+}
+
 #endif	/* INCLUDED_simcommon_h_ */
